@@ -255,12 +255,13 @@ def check(case: Dict[str, Any]) -> Outcome:
             return await send_initialize(r, w, timeout=2.0)
         if op == "tools/list":
             return await send_tools_list(r, w, timeout=2.0)
+        # names and URIs are caller data like any other text (non-ASCII tool names, URIs with spaces ...)
         if op == "tools/call":
-            return await send_tools_call(r, w, "t", {"q": text}, timeout=2.0)
+            return await send_tools_call(r, w, "t" + text, {"q": text}, timeout=2.0)
         if op == "resources/read":
-            return await send_resources_read(r, w, "file:///a", timeout=2.0)
+            return await send_resources_read(r, w, "file:///a" + text, timeout=2.0)
         if op == "prompts/get":
-            return await send_prompts_get(r, w, "p", {"q": text}, timeout=2.0)
+            return await send_prompts_get(r, w, "p" + text, {"q": text}, timeout=2.0)
         return await send_ping(r, w, timeout=2.0)
 
     async def client_b(r, w):
